@@ -268,7 +268,7 @@ def materialise(world, scratch):
     world = {"nodes":[{id,parent,kind,name,...}], "files":[...extra ignore files...]}.
     Returns World.  Node ids are 1..N with parent < id (0 = the base directory)."""
     base = tempfile.mkdtemp(prefix="w.", dir=scratch)
-    root = os.path.join(base, "r")
+    root = os.path.join(base, world.get("rootname") or "r")      # (rootname: a name with characters that are special somewhere)
     os.mkdir(root)
     home = os.path.join(base, "home")
     os.makedirs(os.path.join(home, ".config", "fselect"))
@@ -355,6 +355,9 @@ def materialise(world, scratch):
     if world.get("gitinit"):
         subprocess.run(["git", "init", "-q", root], stdout=subprocess.DEVNULL, stderr=subprocess.DEVNULL,
                        env=dict(os.environ, HOME=home, GIT_CONFIG_NOSYSTEM="1"))
+    for d in world.get("gitrepos", []) or []:            # several repositories: the directories (node ids) that are repository roots
+        subprocess.run(["git", "init", "-q", paths[d]], stdout=subprocess.DEVNULL, stderr=subprocess.DEVNULL,
+                       env=dict(os.environ, HOME=home, GIT_CONFIG_NOSYSTEM="1"))
     for f in world.get("files", []) or []:
         p = os.path.join(paths[f.get("parent", 0)], _chars(f["name"]))
         os.makedirs(os.path.dirname(p), exist_ok=True)
@@ -422,6 +425,23 @@ def snapshot(w, world, digests=False):
         if p.returncode not in (0, 1):
             raise ToolError("git check-ignore failed: %s" % p.stderr.decode()[:200])
         ignored = set(x for x in p.stdout.decode().split("\0") if x)
+    repo_of = {}
+    if world.get("gitrepos"):
+        # every entry is judged by the repository it lies in (the innermost repository root above it); outside of them nothing is ignored
+        roots = sorted((w.paths[d] for d in world["gitrepos"]), key=len, reverse=True)
+        for n in world.get("nodes", []):
+            pth = w.paths[n["id"]]
+            for rt in roots:
+                if pth.startswith(rt + os.sep):
+                    repo_of[n["id"]] = rt
+                    break
+        for rt in set(repo_of.values()):
+            rels = [os.path.relpath(w.paths[i], rt) for i, x in repo_of.items() if x == rt]
+            p = subprocess.run(["git", "-C", rt, "check-ignore", "--stdin", "-z"], input="\0".join(rels).encode(),
+                               stdout=subprocess.PIPE, stderr=subprocess.PIPE, env=dict(os.environ, HOME=w.home, GIT_CONFIG_NOSYSTEM="1"))
+            if p.returncode not in (0, 1):
+                raise ToolError("git check-ignore failed: %s" % p.stderr.decode()[:200])
+            ignored |= set(os.path.join(rt, x) for x in p.stdout.decode().split("\0") if x)
     for n in sorted(world.get("nodes", []), key=lambda n: n["id"]):
         p = w.paths[n["id"]]
         st = os.lstat(p)
@@ -432,6 +452,8 @@ def snapshot(w, world, digests=False):
                "sizec": list(str(st.st_size)), "nlinkn": st.st_nlink, "blocksn": st.st_blocks if st.st_blocks < 2 ** 31 else -1}
         if world.get("gitinit"):
             rec["gitignored"] = os.path.relpath(p, w.paths[0]) in ignored
+        elif world.get("gitrepos"):
+            rec["gitignored"] = p in ignored
         try:
             rec["user"] = pwd.getpwuid(st.st_uid).pw_name
         except KeyError:
